@@ -157,7 +157,7 @@ class CleanExplore(InputProp):
     chunk = 300
     soft_timeout = 30.0
     hard_timeout = 90.0
-    budget_s = {"quick": 900.0, "thorough": 7200.0}
+    budget_s = {"quick": 1800.0, "thorough": 7200.0}
     which = "C05"
 
     def prepare(self, tier):
